@@ -12,6 +12,7 @@ from .ExcludedGcode import EXCLUDE_EXCEPT_FIRST, EXCLUDE_EXCEPT_LAST, EXCLUDE_ME
 from .Position import Position
 from .RetractionState import RetractionState
 from .GcodeParser import GcodeParser
+from .CommonMixin import plainDecimal
 
 IGNORE_GCODE_CMD = (None,)
 
@@ -828,14 +829,14 @@ class ExcludeRegionState(object):  # pylint: disable=too-many-instance-attribute
 
         returnCommands.append(
             # Set logical extruder position
-            "G92 E{e}".format(e=self.position.E_AXIS.nativeToLogical())
+            "G92 E{e}".format(e=plainDecimal(self.position.E_AXIS.nativeToLogical()))
         )
 
         newZ = self.position.Z_AXIS.nativeToLogical()
         oldZ = self.lastPosition.Z_AXIS.nativeToLogical()
         moveZcmd = "G0 F{f} Z{z}".format(
-            f=self.feedRate / self.feedRateUnitMultiplier,
-            z=newZ
+            f=plainDecimal(self.feedRate / self.feedRateUnitMultiplier),
+            z=plainDecimal(newZ)
         )
 
         if (newZ > oldZ):
@@ -847,9 +848,9 @@ class ExcludeRegionState(object):  # pylint: disable=too-many-instance-attribute
             # Move X/Y axes to new position
             # Use G0 ("fast" linear move) as this is a non-extruding move
             "G0 F{f} X{x} Y{y}".format(
-                f=self.feedRate / self.feedRateUnitMultiplier,
-                x=self.position.X_AXIS.nativeToLogical(),
-                y=self.position.Y_AXIS.nativeToLogical()
+                f=plainDecimal(self.feedRate / self.feedRateUnitMultiplier),
+                x=plainDecimal(self.position.X_AXIS.nativeToLogical()),
+                y=plainDecimal(self.position.Y_AXIS.nativeToLogical())
             )
         )
 
